@@ -19,6 +19,7 @@ V  seeded random worlds (<= 8 pages, wider spelling universe taken from the lang
 from __future__ import annotations
 
 import json
+import os
 import random
 import re
 import shutil
@@ -28,7 +29,26 @@ import threading
 from pathlib import Path
 
 import common
-from common import Outcome, tlc, pmap, Scratch
+from common import Outcome, pmap, Scratch
+
+_JT = None
+_JT_LOCK = threading.Lock()
+
+
+def tlc(*a, **kw):
+    """common.tlc with the JVM's temp dir (TLC unpacks its standard modules there and
+    never removes them) redirected into one scratch directory removed at exit."""
+    global _JT
+    with _JT_LOCK:
+        if _JT is None:
+            import atexit
+
+            _JT = tempfile.mkdtemp(prefix="c17j-")
+            atexit.register(shutil.rmtree, _JT, True)
+    env = dict(kw.pop("env", None) or {})
+    env["JAVA_TOOL_OPTIONS"] = (os.environ.get("JAVA_TOOL_OPTIONS", "") + f" -Djava.io.tmpdir={_JT}").strip()
+    return common.tlc(*a, env=env, **kw)
+
 
 PID = "C17"
 DEV_NAMES = "IncludedNamesMatchedExactly"
